@@ -84,9 +84,14 @@ COMMANDS = {
 NOT_LINTERS = {"config", "init-config", "hello"}
 FINALIZE_PREFIXES = ("dry.", "stringly-typed.")  # rules whose findings are produced by the cross-file finalisation step
 
-DIRS = ["", "src", "src/core", "lib", "lib/util", "app/ui", "app", "tools", "core", ".hid", "pkg/build"]
+DIRS = ["", "src", "src/core", "lib", "lib/util", "app/ui", "app", "tools", "core", ".hid", "pkg/build", "tests", "tests/unit", "examples"]
 STEMS = ["mod", "mod", "index", "util_x", "core_x"]
 CONFIG = {"dry": {"enabled": True}, "file-placement": {"global_deny": [{"pattern": r".*_x[0-9]*\.[a-z]+$", "reason": "no _x modules"}]}}
+# the same settings with per-language overrides: what a file is judged by depends on ITS language, whatever else is in the run
+LANGCFG = {**CONFIG, "nesting": {"max_nesting_depth": 4, "python": {"max_nesting_depth": 1}, "rust": {"max_nesting_depth": 2}},
+           "srp": {"max_methods": 7, "typescript": {"max_methods": 1}, "python": {"max_loc": 5}},
+           "magic-numbers": {"allowed_numbers": [0, 1], "javascript": {"allowed_numbers": []}, "python": {"allowed_numbers": [0, 1, 1300, 1307, 1314, 1321]}},
+           "dry": {"enabled": True, "min_duplicate_lines": 3, "typescript": {"min_duplicate_lines": 4}}}
 FIELDS = ("rule_id", "file", "line", "column", "message")
 # explicit_config == 2: both entry points are given ALT_NAME (= CONFIG) explicitly while the autodiscoverable
 # .thailint.yaml carries different settings for sections ALT_NAME does not mention; whatever the tool does with the
@@ -163,7 +168,7 @@ def cases(draw):
         libfiles.append(both[0])
     explicit_config = draw(st.sampled_from([0, 0, 0, 1, 2, 2]))
     return {"cmd": cmd, "files": files, "subset": subset, "subdir": subdir, "recursive": recursive, "libfiles": libfiles,
-            "explicit_config": explicit_config}
+            "explicit_config": explicit_config, "langcfg": explicit_config != 2 and draw(st.booleans())}
 
 
 def _join(d, name):
@@ -275,8 +280,9 @@ def check(case) -> Case:
     paths = [f["p"] for f in files]
     failures = []
     labels = [f"cmd={cmd}", "cross-file" if cross else "per-file", f"nfiles={len(files)}", f"recursive={case['recursive']}",
-              "subdir" if case["subdir"] else "no-subdir", ["config=autodiscovered", "config=explicit", "config=explicit-alternative-file"][int(case.get("explicit_config") or 0)]]
-    with Project({f["p"]: render(f) for f in files}, config=HOSTILE if case.get("explicit_config") == 2 else CONFIG) as p:
+              "subdir" if case["subdir"] else "no-subdir", ["config=autodiscovered", "config=explicit", "config=explicit-alternative-file"][int(case.get("explicit_config") or 0)],
+              "per-language-sections" if case.get("langcfg") else "flat-sections"]
+    with Project({f["p"]: render(f) for f in files}, config=HOSTILE if case.get("explicit_config") == 2 else (LANGCFG if case.get("langcfg") else CONFIG)) as p:
         if case.get("explicit_config") == 2:
             from vf.project import to_yaml
 
